@@ -325,6 +325,12 @@ class Parser(RstParser):
                 warning = document.reporter.warning("Raw content disabled.")
                 node.parent.replace(node, warning)
 
+        # like the docutils rST parser, restore the "default" default role
+        # (which may have been changed by a `default-role` directive)
+        from docutils.parsers.rst import roles
+
+        roles._roles.pop("", None)
+
         self.finish_parse()
 
 
